@@ -418,6 +418,20 @@ def install_mutant(name):
             sched._delay = delay
 
         MUTATE[0] = mutate
+    elif name == 'forget_served':  # the record of served occurrences is lost before every pass -> Once (repaired defer only)
+        mutant = None
+
+        def mutate(sched):
+            inner = sched.defer
+
+            def forgetful():
+                for t in sched.per:
+                    t.set('served', {})
+                return inner()
+
+            sched.defer = forgetful
+
+        MUTATE[0] = mutate
     elif name == 'timer_late':  # the wake-up is requested an hour after the moment -> Armed
         mutant = None
 
